@@ -234,6 +234,32 @@ func init() {
 		m["(time.Duration).Milliseconds"] = func(ex *Exec, fr *frame, cc *ssa.CallCommon, a []Value) Value {
 			return VInt{ex.truncDivX(ti(a[0]), IntC(1000000))}
 		}
+		m["(time.Duration).Truncate"] = func(ex *Exec, fr *frame, cc *ssa.CallCommon, a []Value) Value {
+			d, mm := ti(a[0]), ti(a[1])
+			if !mm.Const {
+				panic(unsupported{"Duration.Truncate by symbolic"})
+			}
+			if mm.I.Sign() <= 0 {
+				return a[0]
+			}
+			return VInt{Sub(d, ex.truncRemX(ex.nameT(d), mm))}
+		}
+		m["(time.Duration).Round"] = func(ex *Exec, fr *frame, cc *ssa.CallCommon, a []Value) Value {
+			d, mm := ex.nameT(ti(a[0])), ti(a[1])
+			if !mm.Const {
+				panic(unsupported{"Duration.Round by symbolic"})
+			}
+			if mm.I.Sign() <= 0 {
+				return a[0]
+			}
+			// rounds half away from zero to a multiple of m (saturation at the int64 ends ignored: |d| < 2^62 assumed)
+			r := ex.nameT(ex.truncRemX(d, mm))
+			ar := ex.nameT(Abs(r))
+			up := Ge(Add(ar, ar), mm)
+			pos := Ite(up, Add(Sub(d, r), mm), Sub(d, r))
+			neg := Ite(up, Sub(Sub(d, r), mm), Sub(d, r))
+			return VInt{ex.nameT(Ite(Lt(d, IntC(0)), neg, pos))}
+		}
 		m["(time.Duration).Seconds"] = func(ex *Exec, fr *frame, cc *ssa.CallCommon, a []Value) Value {
 			panic(unsupported{"Duration.Seconds (float)"})
 		}
